@@ -214,11 +214,17 @@ def perform(step, objs):
             return a.move(c for c in v)
         if form == "point2d":
             return a.move(Point2D(v[0], v[1]))
+        if form == "nparray":
+            if all(isinstance(c, float) for c in v):
+                return a.move(np.array(v))
+            return a.move(np.array(v, dtype="object"))
         return a.move(v[0], v[1])
     if op == "scale":
         return a.scale(num(step["sx"]), num(step["sy"]))
     if op == "rotate":
         if "degrees" in step and step["degrees"] is not None:
+            if step.get("dkw"):
+                return a.rotate(num(step["angle"]), degrees=step["degrees"])
             return a.rotate(num(step["angle"]), step["degrees"])
         return a.rotate(num(step["angle"]))
     if op == "invert":
